@@ -244,6 +244,16 @@ def real_obligations(check, Q, kernels, tag):
         t2 = RealTask(check, 'C11.range.%s.%s.real.%s' % (k1, k2, tag), S, goal2, assumes=facts, function=f.qualname, loc=Q.loc(f), timeout=120)
         t2.ob.text = 'the acos argument lies in [-1, 1] over the reals (Cauchy-Schwarz)'
         tasks.append(t2)
+    # the value handed to acos is the computed cosine clamped to [-1, 1]: modular REAL obligation with Dot and
+    # Magnitude replaced by unconstrained results (so the clamping branches, unreachable over the reals by
+    # Cauchy-Schwarz but reachable in floating point, are exercised)
+    for (k1, k2), f in sorted(kernels.items()):
+        try:
+            clamp_task = clamp_obligation(check, Q, f, k1, k2, tag)
+            if clamp_task is not None:
+                tasks.append(clamp_task)
+        except Unsupported as e:
+            check.error('C11.clamp.%s.%s: %s' % (k1, k2, e))
     # symmetry over the reals
     args = {}
     for (k1, k2), f in sorted(kernels.items()):
@@ -276,7 +286,10 @@ def real_obligations(check, Q, kernels, tag):
         if ob.status == 'failed':
             rec = {'property': 'C11', 'obligation': ob.name, 'function': ob.function, 'source': ob.loc, 'verifier_output': ob.detail,
                    'solver_model': {k: str(v) for k, v in (ob.cex or {}).items()}, 'confirmed': False}
-            check.violations.append((ob, write_replay(check, ob, rec), 'no-failing-input-found'))
+            m = re.match(r'C11\.clamp\.(\w+)\.(\w+)\.real', ob.name)
+            if m and (m.group(1), m.group(2)) in kernels:
+                search_parallel(check, Q, kernels[(m.group(1), m.group(2))], rec)
+            check.violations.append((ob, write_replay(check, ob, rec), '' if rec['confirmed'] else 'no-failing-input-found'))
 
 
 def find_apps(t, fname):
@@ -296,3 +309,90 @@ def find_apps(t, fname):
             if isinstance(c, tuple):
                 stack.append(c)
     return out
+
+
+def clamp_obligation(check, Q, f, k1, k2, tag):
+    from ..symex import SymEx
+    low = Q.low
+    state = {'dots': [], 'mags': []}
+
+    def dot_summary(S, g, args, st):
+        d = S.fresh('dot')
+        state['dots'].append(d)
+        return d
+
+    def mag_summary(S, g, args, st):
+        key = repr(args[0])
+        for k, m in state['mags']:
+            if k == key:
+                return m
+        m = S.fresh('mag')
+        S.assumes.append(cmp('<', num(0), m))
+        state['mags'].append((key, m))
+        return m
+    summaries = {}
+    for g in low.funcs.values():
+        nm = g.node.get('name')
+        if g.kind == 'method' and g.record and low.records[g.record].template in VECS + DIRS:
+            if nm == 'Dot' and len(g.params) == 2:
+                summaries[g.cname] = dot_summary
+            elif nm == 'Magnitude' and len(g.params) == 1:
+                summaries[g.cname] = mag_summary
+    S = SymEx(low, summaries=summaries)
+    sc = SymCall(low, f, symex=S)
+    val = leaves(sc.post['self'])[0]
+    if len(state['dots']) != 1:
+        raise Unsupported('expected exactly one dot product in the kernel, found %d' % len(state['dots']))
+    q = state['dots'][0]
+    for _, m in state['mags']:
+        q = mk('/', q, m)
+    cl = ite(cmp('<', q, num(-1)), num(-1), ite(cmp('<', num(1), q), num(1), q))
+    cases = []
+
+    def walk(t, cond):
+        if t[0] == 'ite':
+            walk(t[2], land(cond, t[1]))
+            walk(t[3], land(cond, lnot(t[1])))
+        elif t[0] == 'app' and t[1] == 'acos':
+            cases.append((cond, t[2][0]))
+        else:
+            raise Unsupported('the stored angle is not an arc cosine on every path (%s)' % (t[0],))
+    walk(val, TRUE)
+    goal = TRUE
+    for cond, arg in cases:
+        goal = land(goal, lor(lnot(cond), cmp('==', arg, cl)))
+    t = RealTask(check, 'C11.clamp.%s.%s.real.%s' % (k1, k2, tag), S, goal, function=f.qualname, loc=Q.loc(f), timeout=120)
+    t.ob.text = 'for every computed dot d and magnitudes m_i > 0: on every path the value passed to acos == clamp(d / prod m_i, -1, 1)  (%d paths; so the result is acos(-1) = pi when rounding pushes the cosine below -1 and acos(1) = 0 above 1)' % len(cases)
+    return t
+
+
+def search_parallel(check, Q, f, rec):
+    """Seeded native search over exactly (anti)parallel pairs: the angle must be (nearly) 0 resp. pi."""
+    import random
+    from ..ieeeob import default_includes
+    low = Q.low
+    T = low.record(f.record).targs[0]
+    rnd = random.Random(check.seed * 31 + 7)
+    gen = parallel_inputs(low, f, T)
+    nc = replay.NativeCall(low, f)
+    k1, k2 = [low.record(p[1][1][1]).template for p in f.params[1:]]
+    for i in range(40):
+        w = gen(rnd)
+        a, b = w[f.params[1][0]], w[f.params[2][0]]
+        anti = (float(a[0]) * float(b[0]) < 0) or (float(a[0]) == 0 and float(a[1]) * float(b[1]) < 0)
+        try:
+            cpp = nc.program(w, includes=default_includes(low, f))
+        except Unsupported as e:
+            rec['replay_error'] = str(e)
+            return
+        r, err = replay.build_and_run(cpp, os.path.join(check.work, 'replay'), 'c%d_%s' % (i, re.sub(r'\W+', '_', rec['obligation'])[:100]))
+        if err:
+            rec['replay_error'] = err
+            return
+        out = replay.parse_out(r.stdout)
+        v = float(out.get('RET', [float('nan')])[0])
+        want = math.pi if anti else 0.0
+        if not (abs(v - want) < 1e-2):
+            rec.update({'confirmed': True, 'inputs': {k: [str(x) for x in vv] for k, vv in w.items()}, 'input_kind': 'seeded %sparallel pair #%d' % ('anti' if anti else '', i),
+                        'native_output': r.stdout, 'cpp': cpp, 'mismatch': ['the angle between %sparallel arguments is %r (expected about %r)' % ('anti' if anti else '', v, want)]})
+            return
